@@ -354,9 +354,16 @@ Definition wf_file (f : file) : bool :=
 Definition on_code (f : file) (p : pos) : bool :=
   existsb (fun t => pos_leb (fst t) p && pos_leb p (snd t)) (f_toks f).
 
-(* the scope is written directly in a class body: its innermost enclosing scope is a class *)
+(* the position touches the node *)
+Definition touches (s : scope) (p : pos) : bool := pos_leb (s_kw s) p && pos_leb p (s_end s).
+(* some scope lies strictly between y and x *)
+Definition between (l : list scope) (y x : scope) : bool :=
+  existsb (fun z => strictly_encloses y z && strictly_encloses z x) l.
+(* x is written directly in a class body: its innermost enclosing scope is a class
+   (written with `if` so that evaluation is lazy) *)
 Definition direct_cls (l : list scope) (x : scope) : bool :=
-  match tl (chain_at l (s_kw x)) with y :: _ => is_cls y | [] => false end.
+  existsb (fun y => if is_cls y then (if strictly_encloses y x then negb (between l y x) else false)
+                    else false) l.
 (* p does not touch a lambda that is written directly in a class body *)
 Definition lam_cls_free (l : list scope) (p : pos) : bool :=
-  forallb (fun x => negb (is_lam x && direct_cls l x && pos_leb (s_kw x) p && pos_leb p (s_end x))) l.
+  forallb (fun x => if is_lam x then (if touches x p then negb (direct_cls l x) else true) else true) l.
